@@ -787,7 +787,10 @@ func (c *Conn) advanceFrame() (int, error) {
 	c.readRemaining = int64(p[1] & 0x7f)
 
 	c.readDecompress = false
-	if c.newDecompressionReader != nil && (p[0]&rsv1Bit) != 0 {
+	// RFC 7692 6: the per-message-compressed bit (RSV1) is only legal on the first
+	// frame of a data message; on continuation and control frames it stays a
+	// reserved bit.
+	if c.newDecompressionReader != nil && (p[0]&rsv1Bit) != 0 && (frameType == TextMessage || frameType == BinaryMessage) {
 		c.readDecompress = true
 		p[0] &^= rsv1Bit
 	}
